@@ -1,5 +1,5 @@
 """Reusable queries over bodies: place enumeration, field uses, path guards, atomics."""
-from .sym import PathEval, show
+from .sym import PathEval, show, _freeze
 from .model import proj_names
 
 ORD_RANK = {"Relaxed": 0, "Release": 1, "Acquire": 1, "AcqRel": 2, "SeqCst": 3}
@@ -260,3 +260,44 @@ def dropped_on_all_exits(body, call_bb, drops, max_paths=20000):
     if not n:
         problems.add("no complete path through the call")
     return sorted(problems)
+
+
+def closure_of_term(t):
+    if t and t[0] == "agg" and isinstance(t[1], str) and t[1].startswith("closure:"):
+        return t[1][len("closure:"):]
+    if t and t[0] == "const" and len(t) > 3 and isinstance(t[3], str) and "{closure" in t[3]:
+        return t[3]
+    return None
+
+
+def peel_bool(F, term, depth=0):
+    """See through `opt.map(|x| TEST).unwrap_or(false)` / `opt.map_or(false, |x| TEST)` / `opt.is_some_and(|x| TEST)`:
+    returns the closure's (unique) return term, else the term itself. The polarity is unchanged by these wrappers and the
+    None case yields false."""
+    if depth > 4 or not term or term[0] != "call":
+        return term
+    name = term[1].rsplit("::", 1)[-1]
+    args = term[2]
+
+    def closure_ret(ct):
+        cd = closure_of_term(ct)
+        b = F.body(cd) if cd else None
+        if b is None:
+            return None
+        rets = {_freeze(p.ret) for p in PathEval(b).run() if p.end == "return"}
+        return list(rets)[0] if len(rets) == 1 else None
+    if name == "unwrap_or" and len(args) == 2 and args[1][0] == "const" and args[1][2] == 0:
+        inner = args[0]
+        if inner[0] == "call" and inner[1].rsplit("::", 1)[-1] == "map" and len(inner[2]) == 2:
+            r = closure_ret(inner[2][1])
+            if r is not None:
+                return peel_bool(F, r, depth + 1)
+    if name == "map_or" and len(args) == 3 and args[1][0] == "const" and args[1][2] == 0:
+        r = closure_ret(args[2])
+        if r is not None:
+            return peel_bool(F, r, depth + 1)
+    if name == "is_some_and" and len(args) == 2:
+        r = closure_ret(args[1])
+        if r is not None:
+            return peel_bool(F, r, depth + 1)
+    return term
